@@ -351,9 +351,54 @@ def burnt_pancake (n : Int) : Option (RawDef) := do
   let name : String := ("burnt_pancake-" ++ pyStr n)
   pure (RawDef.mk generators (some (pyRange (0 : Int) ((2 : Int) * n) (1 : Int))) (some generator_names) (some name))
 
--- NOT TRANSLATED `three_cycles`: for-else / tuple loop target
+/-- translated from `graphs_lib.py:three_cycles` -/
+def three_cycles (n : Int) : Option (RawDef) := do
+  pyAssert (decide (n ≥ (3 : Int)))
+  let generators : List (List Int) := []
+  let generator_names : List String := []
+  let st ← List.foldlM (fun (st : (List (List Int)) × (List String)) (t_1 : List Int) => do
+      let generators := st.1
+      let generator_names := st.2
+      pyAssert ((pyLen t_1) == (3 : Int))
+      let a ← pyGet t_1 (0 : Int)
+      let b ← pyGet t_1 (1 : Int)
+      let c ← pyGet t_1 (2 : Int)
+      let st : (List (List Int)) × (List String) ← (if ((decide (a < b)) && (decide (a < c))) then do
+          let t_2 ← Cv.PyGen.Perm.permutation_from_cycles n [[a, b, c]] (0 : Int)
+          let generators := generators ++ [t_2]
+          let generator_names := generator_names ++ [("(" ++ pyStr a ++ " " ++ pyStr b ++ " " ++ pyStr c ++ ")")]
+          pure (generators, generator_names)
+        else do
+          pure (generators, generator_names)
+        )
+      let generators := st.1
+      let generator_names := st.2
+      pure (generators, generator_names)
+      ) (generators, generator_names) (pyPermutationsR (pyRange (0 : Int) n (1 : Int)) (3 : Int))
+  let generators := st.1
+  let generator_names := st.2
+  let name : String := ("three_cycles-" ++ pyStr n)
+  pure (RawDef.mk generators (some (pyRange (0 : Int) n (1 : Int))) (some generator_names) (some name))
 
--- NOT TRANSLATED `three_cycles_0ij`: for-else / tuple loop target
+/-- translated from `graphs_lib.py:three_cycles_0ij` -/
+def three_cycles_0ij (n : Int) : Option (RawDef) := do
+  let generators : List (List Int) := []
+  let generator_names : List String := []
+  let st ← List.foldlM (fun (st : (List (List Int)) × (List String)) (t_1 : List Int) => do
+      let generators := st.1
+      let generator_names := st.2
+      pyAssert ((pyLen t_1) == (2 : Int))
+      let i ← pyGet t_1 (0 : Int)
+      let j ← pyGet t_1 (1 : Int)
+      let t_2 ← Cv.PyGen.Perm.permutation_from_cycles n [[(0 : Int), i, j]] (0 : Int)
+      let generators := generators ++ [t_2]
+      let generator_names := generator_names ++ [("(" ++ pyStr (0 : Int) ++ " " ++ pyStr i ++ " " ++ pyStr j ++ ")")]
+      pure (generators, generator_names)
+      ) (generators, generator_names) (pyPermutationsR (pyRange (1 : Int) n (1 : Int)) (2 : Int))
+  let generators := st.1
+  let generator_names := st.2
+  let name : String := ("three_cycles_0ij-" ++ pyStr n)
+  pure (RawDef.mk generators (some (pyRange (0 : Int) n (1 : Int))) (some generator_names) (some name))
 
 /-- default value of `three_cycles_01i(add_inverses=…)` in the source -/
 def three_cycles_01i_default_add_inverses : Bool := true
@@ -393,7 +438,33 @@ def three_cycles_01i (n : Int) (add_inverses : Bool) : Option (RawDef) := do
   let name := st
   pure (RawDef.mk generators (some (pyRange (0 : Int) n (1 : Int))) (some generator_names) (some name))
 
--- NOT TRANSLATED `derangements`: for-else / tuple loop target
+/-- translated from `graphs_lib.py:derangements` -/
+def derangements (n : Int) : Option (RawDef) := do
+  pyAssert (decide (n ≥ (2 : Int)))
+  let generators : List (List Int) := []
+  let generator_names : List String := []
+  let st ← List.foldlM (fun (st : (List (List Int)) × (List String)) (t_1 : Int × (List Int)) => do
+      let generators := st.1
+      let generator_names := st.2
+      let idx : Int := t_1.1
+      let perm := t_1.2
+      let t_3 ← pyAnyM (fun i => do let t_2 ← pyGet perm i; pure ((t_2 == i))) (pyRange (0 : Int) n (1 : Int))
+      let has_fixed_point : Bool := t_3
+      let st : (List (List Int)) × (List String) ← (if (!has_fixed_point) then do
+          let generators := generators ++ [perm]
+          let generator_names := generator_names ++ [("D" ++ pyStr idx)]
+          pure (generators, generator_names)
+        else do
+          pure (generators, generator_names)
+        )
+      let generators := st.1
+      let generator_names := st.2
+      pure (generators, generator_names)
+      ) (generators, generator_names) (pyEnumerate (pyPermutations (pyRange (0 : Int) n (1 : Int))))
+  let generators := st.1
+  let generator_names := st.2
+  let name : String := ("derangements-" ++ pyStr n)
+  pure (RawDef.mk generators (some (pyRange (0 : Int) n (1 : Int))) (some generator_names) (some name))
 
 -- NOT TRANSLATED `involutive_derangements`: local function generate_matchings uses outer variables ['first', 'generate_matchings', 'i', 'matching', 'partner', 'remaining', 'result']
 
@@ -532,7 +603,7 @@ def rapaport_m2 (n : Int) : Option (RawDef) := do
   let name : String := ("rapaport_m2-" ++ pyStr n)
   pure (RawDef.mk generators (some (pyRange (0 : Int) n (1 : Int))) (some generator_names) (some name))
 
--- NOT TRANSLATED `all_cycles`: call of combinations
+-- NOT TRANSLATED `all_cycles`: call of min
 
 /-- default value of `lsl_cycles(add_inverses=…)` in the source -/
 def lsl_cycles_default_add_inverses : Bool := true
@@ -594,7 +665,24 @@ def larx (n : Int) : Option (RawDef) := do
   let name : String := ("larx-" ++ pyStr n)
   pure (RawDef.mk generators (some (pyRange (0 : Int) n (1 : Int))) (some generator_names) (some name))
 
--- NOT TRANSLATED `increasing_k_cycles`: call of combinations
+/-- translated from `graphs_lib.py:increasing_k_cycles` -/
+def increasing_k_cycles (n : Int) (k : Int) : Option (RawDef) := do
+  pyAssert ((decide (n ≥ (1 : Int))) && (decide ((1 : Int) ≤ k) && decide (k ≤ n)))
+  let generators : List (List Int) := []
+  let generator_names : List String := []
+  let st ← List.foldlM (fun (st : (List (List Int)) × (List String)) (combo : List Int) => do
+      let generators := st.1
+      let generator_names := st.2
+      let cyc : List Int := combo
+      let t_1 ← Cv.PyGen.Perm.permutation_from_cycles n [cyc] (0 : Int)
+      let generators := generators ++ [t_1]
+      let generator_names := generator_names ++ [("(" ++ (pyJoin "," (List.map pyStr cyc)) ++ ")")]
+      pure (generators, generator_names)
+      ) (generators, generator_names) (pyCombinations (pyRange (0 : Int) n (1 : Int)) k)
+  let generators := st.1
+  let generator_names := st.2
+  let name : String := ("increasing_k_cycles-" ++ pyStr n ++ "-" ++ pyStr k)
+  pure (RawDef.mk generators (some (pyRange (0 : Int) n (1 : Int))) (some generator_names) (some name))
 
 /-- translated from `graphs_lib.py:sheveleva2` -/
 def sheveleva2 (n : Int) (k : Int) : Option (RawDef) := do
